@@ -42,9 +42,15 @@ def cases(tier, seed):
         if tier == 'quick' and model not in ('clpt_donnell_bc1', 'clpt_donnell_bc2') and (alpha or inc != 1.0):
             continue
         out.append(dict(kind='load', model=model, alpha=alpha, pdC=pdC, pdT=pdT, load=load, inc=inc, seed=seed))
+        # point forces whose magnitudes are changed after an earlier evaluation (positions kept), as a perturbation-load study does
+        if load in ('forces', 'all') and model in ('clpt_donnell_bc1', 'clpt_donnell_bc3') and inc == 1.0:
+            out.append(dict(kind='load', model=model, alpha=alpha, pdC=pdC, pdT=pdT, load=load, inc=inc, hist='forces_rescaled', seed=seed))
         # the same load case after a tangent stiffness was evaluated on the object (as every non-linear run does)
         if load in ('uTM', 'thetaT', 'all') and model in ('clpt_donnell_bc1', 'clpt_donnell_bc4') and (pdC or pdT):
             out.append(dict(kind='load', model=model, alpha=alpha, pdC=pdC, pdT=pdT, load=load, inc=inc, hist='after_kT', seed=seed))
+    # isotropic short-cut models under pressure
+    for model, alpha, load, inc in itertools.product(['iso_clpt_donnell_bc2', 'iso_clpt_donnell_bc3'], [0., 25.], ['P', 'P_inc', 'forces'], [1.0, 0.6]):
+        out.append(dict(kind='load', model=model, alpha=alpha, pdC=0, pdT=1, load=load, inc=inc, seed=seed))
     # circumferential series long enough for the ring loads' quadrature to matter (the class default is n2 = 45)
     for model, load in itertools.product(['clpt_donnell_bc3', 'clpt_donnell_bc4'], ['T', 'Fc', 'forces']):
         out.append(dict(kind='load', model=model, alpha=0., pdC=0, pdT=0, load=load, inc=1.0, n2=38, m2=1, seed=seed))
@@ -195,6 +201,14 @@ def check_load(case):
         cst = 0.4e-3 * np.array([seed_eps(case['seed'], 4100 + i) for i in range(nfree)])
         cc.calc_fint(cst.copy(), inc=0.7, silent=True)
         cc.calc_kT(cst.copy(), inc=0.7, silent=True)
+    if case.get('hist') == 'forces_rescaled':
+        cc.calc_fext(inc=inc, silent=True)
+        fac = (-1.7, 0.4, 2.5)
+        for lst in (cc.forces, cc.forces_inc):
+            for f in lst:
+                for q in range(3):
+                    f[2 + q] = f[2 + q] * fac[q]
+        forces = [(pos, tuple(v * fac[q] for q, v in enumerate(comp)), incr) for pos, comp, incr in forces]
     fext = np.asarray(cc.calc_fext(inc=inc, silent=True), dtype=float)
     size = cc.get_size()
     excl = list(cc.excluded_dofs)
@@ -202,7 +216,7 @@ def check_load(case):
     if fext.shape != (len(keep),):
         return dict(fails=[fail('force vector does not have the size of the reduced system', sig=None, case=case)], nontrivial=1)
     from compmech.conecyl import modelDB
-    fuvw = modelDB.db[cc.model]['commons'].fuvw
+    fuvw = modelDB.db[cc.model[4:] if cc.model.startswith('iso_') else cc.model]['commons'].fuvw
 
     def uvw_unit(col, xs, ts):
         e = np.zeros(size); e[col] = 1.0
